@@ -57,12 +57,12 @@ FAMILIES = {
 }
 
 
-def run(S):
+def explore(S, D, prefix='C18'):
+    """the obligations of this module up to nesting depth D, reported under `prefix` (C05 uses them as 'never hangs': work that doubles per level)"""
     kt = T.KT = T.KindTable(S.driver, S.adts)
     core = S.core
     f_attr = S.find_fn(core, 'AttrStore::new')
     f_markup = S.find_fn(core, 'PrettyPrinter::convert_markup')
-    D = 8 if S.tier == 'quick' else 16
     depths = [d for d in (1, 2, 4, 8, 16, 32) if d <= D]
     table = {}
     tasks = []
@@ -117,9 +117,9 @@ def run(S):
                             return
                         S.absorb(m)
                         worst = max(cnt.values()) if cnt else 0
-                        ctx.must_hold(worst <= 1, 'C18:node-converted-more-than-once', lambda mdl: dict(describe(mdl), conversions_of_one_node=worst, conversions_total=sum(cnt.values())))
+                        ctx.must_hold(worst <= 1, prefix + ':node-converted-more-than-once', lambda mdl: dict(describe(mdl), conversions_of_one_node=worst, conversions_total=sum(cnt.values())))
                         worst_t = max(texts.values()) if texts else 0
-                        ctx.must_hold(worst_t <= 2, 'C18:subtree-text-built-repeatedly', lambda mdl: dict(describe(mdl), into_text_calls_on_one_node=worst_t))
+                        ctx.must_hold(worst_t <= 2, prefix + ':subtree-text-built-repeatedly', lambda mdl: dict(describe(mdl), into_text_calls_on_one_node=worst_t))
                         # blocks of typstyle's own MIR executed on this path, per syntax node (checked across depths after the batch)
                         ctx.ex.witness.setdefault('blocks_per_node', 0)
                         ctx.ex.witness['blocks_per_node'] = max(ctx.ex.witness['blocks_per_node'], round(m.steps / float(size_of(tree)), 2))
@@ -147,11 +147,11 @@ def run(S):
     if len(table) < 20:
         S.inconclusive.append('vacuity: only %d family variants were executed' % len(table))
     for g in growth:
-        found.append(('C18:work-per-node-grows-with-depth', g))
+        found.append((prefix + ':work-per-node-grows-with-depth', g))
     # ---- native confirmation: the same growth must show in the real formatter's running time ---------------------------------------
     groups = {}
     for lab, info in found:
-        if lab.startswith('C18:'):
+        if lab.startswith(prefix + ':') and 'panic' not in lab:
             groups.setdefault((lab, info['family']), []).append(info)
     reported = set()
     for (lab, fam), infos in sorted(groups.items()):
@@ -165,6 +165,11 @@ def run(S):
             S.violation(key, '%s: %s' % (key, w['what']), dict(api=w, model=infos[0], spellings=sorted(f for (l2, f) in groups if l2 == lab and f.split(',')[0] == base)))
         elif all((lab, f) in groups for f in (fam,)) and fam == sorted(f for (l2, f) in groups if l2 == lab and f.split(',')[0] == base)[-1]:
             S.inconclusive.append('%s: the solver-decided count (%r) does not show as super-linear running time natively' % (key, infos[0]))
+    return found
+
+
+def run(S):
+    found = explore(S, 8 if S.tier == 'quick' else 16)
     deep.report(S, 'C05', [(l, i) for l, i in found if l.startswith('C05:')])
     S.assumptions += [
         'foreign functions are counted as one step; only SyntaxNode::into_text (linear in the subtree) is counted per node',
